@@ -745,6 +745,8 @@ class Evaluator:
         raise OutOfSubset(f'slice on {base.ty}')
 
     def ev_Attribute(self, n, ctx):
+        if isinstance(n.value, ast.Name) and n.value.id == 'sys' and n.attr == 'maxsize' and 'sys' not in ctx.env:
+            return V(INT, z3.IntVal(9223372036854775807))      # sys.maxsize on the 64-bit interpreters the library runs on
         base = self.ev(n.value, ctx)
         return self.engine.attribute(base, n.attr, ctx, n)
 
